@@ -13,6 +13,7 @@ to the reference (first compilation of that unit in the reference configuration 
 import os
 import json
 import itertools
+import threading
 import subprocess
 import concurrent.futures
 
@@ -72,23 +73,37 @@ def configs(tier):
     return out
 
 
-def shards(tier, seed, programs):
-    """Deterministic list of shard descriptors (small JSON; expanded by `expand`)."""
+HEAVY = {"pressure24", "pressure32", "pressure20c"}
+PATTERNS = {"aab": "aab", "aabba": "aabba"}
+
+
+def is_axis(cfg):
+    """Configurations that differ from the reference in at most one coordinate."""
+    return sum(1 for a, b in zip(cfg, REF) if a != b) <= 1
+
+
+def shards(tier, cfg, programs, asm_families):
+    """Deterministic list of shard descriptors for one configuration (small JSON; expanded by `expand`)."""
     out = []
     if tier == "quick":
-        pairs = PAIRS[:3]
+        pairs, nchunk, pattern = PAIRS[:3], 2, "aab"
         progs = [p for p in programs if p not in QUICK_SKIP]
-        nchunk = 3
+        bfs = {0: 2, 1: 2}          # pair index -> depth of the history tree from the pristine process
+        fresh = 0
     else:
-        pairs = PAIRS
-        progs = list(programs)
-        nchunk = 6
+        pairs, nchunk = PAIRS, 4
+        axis = is_axis(cfg)
+        pattern = "aabba" if axis else "aab"
+        progs = [p for p in programs if axis or p not in HEAVY]
+        bfs = {i: (3 if axis else 2) for i in range(len(PAIRS))}
+        fresh = 1
     chunks = [progs[i::nchunk] for i in range(nchunk)]   # interleaved: every chunk starts simple
-    for (t, x) in pairs:
+    for pi, (t, x) in enumerate(pairs):
         for ci, chunk in enumerate(chunks):
-            d = {"t": t, "x": x, "progs": chunk, "levels": list(LEVELS), "fresh": 2, "bfs": 0}
+            d = {"t": t, "x": x, "progs": chunk, "levels": list(LEVELS), "fresh": fresh, "bfs": 0, "pat": pattern, "asm": []}
             if ci == 0:
-                d["bfs"] = 2 if tier == "quick" else 3
+                d["bfs"] = bfs.get(pi, 0)
+                d["asm"] = [tt for tt in (t, x) if family(tt) in asm_families]
             out.append(d)
     return out
 
@@ -106,6 +121,8 @@ def fresh_shards(programs):
 
 def expand(d):
     """shard descriptor -> (forks, script) for the worker."""
+    if "raw" in d:
+        return d["raw"]["forks"], d["raw"]["script"]
     t, x, progs, levels = d["t"], d["x"], d["progs"], d["levels"]
     forks = []
     if d.get("bfs"):
@@ -122,7 +139,9 @@ def expand(d):
         for n, p in enumerate(progs):
             for lvl in levels:
                 a, b = (t, x) if n % 2 == 0 else (x, t)
-                script += [[p, a, lvl], [p, a, lvl], [p, b, lvl], [p, b, lvl], [p, a, lvl]]
+                script += [[p, a if ch == "a" else b, lvl] for ch in d.get("pat", "aabba")]
+        for tt in d.get("asm", []):
+            script += [["asm:asm_basic", tt, 0], ["asm:asm_basic", tt, 0]]
     return forks, script
 
 
@@ -171,12 +190,15 @@ def launch(cfg, d, repo, textfile=None):
                        env=env, cwd=VERIF, stdout=subprocess.PIPE, stderr=subprocess.PIPE)
     recs = []
     for line in r.stdout.decode().splitlines():
-        recs.append(json.loads(line))
+        try:
+            recs.append(json.loads(line))
+        except ValueError:
+            raise HarnessError("worker wrote a non-JSON line %r (cfg=%r shard=%s)" % (line[:200], cfg, d.get("t")))
     expected = len(script) + sum(len(q) for q in forks)
     bad = [x for x in recs if "harness_error" in x]
     if r.returncode != 0 or not recs or recs[-1].get("done") != expected or bad or len(recs) != expected + 1:
         raise HarnessError("worker failed cfg=%r shard=%s/%s rc=%s bad=%r stderr=%s"
-                           % (cfg, d["t"], d["progs"][:2], r.returncode, bad[:1], r.stderr.decode()[-400:]))
+                           % (cfg, d.get("t"), d.get("progs", [])[:2], r.returncode, bad[:1], r.stderr.decode()[-400:]))
     recs.pop()
     # attach the sequence (for context words / witnesses)
     for x in recs:
@@ -234,31 +256,36 @@ def run(ctx):
     from vf import core
     W = _worker_mod()
     programs = W.programs()
+    asm_families = set(W.ASM_CORPUS)
     repo = core.REPO
     cfgs = configs(ctx.tier)
-    shs = shards(ctx.tier, ctx.seed, programs)
-    extra_ref = fresh_shards(programs) if ctx.tier == "thorough" else []
     if not aslr_off_available():
         ctx.assumptions.append("setarch -R unavailable: ASLR could not be switched off; irreproducible configurations are reported as harness errors")
 
-    tasks = []   # (tag, cfg, shard index, descriptor)
-    for si, d in enumerate(shs + extra_ref):
-        tasks.append(("refA", REF, si, d))
-    for si, d in enumerate(shs):
-        tasks.append(("refB", REF, si, d))
+    ref_shards = shards(ctx.tier, REF, programs, asm_families)
+    n_plain = len(ref_shards)
+    if ctx.tier == "thorough":
+        ref_shards = ref_shards + fresh_shards(programs)
+    tasks = []   # (tag, cfg, descriptor)
+    for d in ref_shards:
+        tasks.append(("refA", REF, d))
+    # the reference configuration is run a second time: quick one shard per target pair, thorough every script shard
+    for si, d in enumerate(ref_shards[:n_plain]):
+        if ctx.tier == "thorough" or d["bfs"]:
+            tasks.append(("refB", REF, d))
     for c in cfgs[1:]:
-        for si, d in enumerate(shs):
-            tasks.append(("cfg", c, si, d))
+        for d in shards(ctx.tier, c, programs, asm_families):
+            tasks.append(("cfg", c, d))
 
-    all_shards = shs + extra_ref
     prog_rank = {p: i for i, p in enumerate(programs)}
+    prog_rank["asm:asm_basic"] = len(programs)
     cfg_rank = {c: i for i, c in enumerate(cfgs)}
-    reftab = {}     # (prog, target, level) -> (record, shard index)
-    refA = {}       # shard index -> records (kept for the refB comparison)
+    reftab = {}     # (prog, target, level) -> (record, shard descriptor)
+    refA = {}       # shard -> records (kept for the refB comparison)
     states = transitions = traces = 0
     unsupported = set()
 
-    def check_records(cfg, si, d, recs):
+    def check_records(cfg, d, recs):
         nonlocal states, traces
         for rec in recs:
             key3 = (rec["prog"], rec["target"], rec["level"])
@@ -269,7 +296,7 @@ def run(ctx):
             if key3 not in reftab:
                 if cfg != REF:
                     raise core.HarnessError("no reference for %r" % (key3,))
-                reftab[key3] = (rec, si)
+                reftab[key3] = (rec, d)
                 if "obj" in rec:
                     ctx.outcome((rec["target"], rec["level"], rec["obj"]))
                     if len(ctx.samples) < 3 and rec["size"] > 60:
@@ -278,66 +305,114 @@ def run(ctx):
                 else:
                     unsupported.add("%s:%s/O%s %s" % (rec["target"], rec["prog"], rec["level"], rec["error"]))
                 continue
-            ref, rsi = reftab[key3]
+            ref, rd = reftab[key3]
             traces += 1
             stage = compare(ref, rec)
             if stage is None:
                 if ref["stages"] != rec["stages"]:
-                    ctx.count("cosmetic_stage_text_differences")
+                    ctx.count("states_with_equal_bytes_but_different_stage_text")
                 continue
             ctx.count("divergent_states")
             ctx.collect("divergent_targets", rec["target"])
             key = "%s/%s" % (family(rec["target"]), stage)
             order = (prog_rank[rec["prog"]] * 100 + cfg_rank[cfg]) * 1000 + min(rec["j"], 999)
-            witness = {"ref": {"cfg": list(REF), "shard": all_shards[rsi], "op": ident(ref)},
+            witness = {"ref": {"cfg": list(REF), "shard": rd, "op": ident(ref)},
                        "got": {"cfg": list(cfg), "shard": d, "op": ident(rec)},
-                       "unit": list(key3), "ref_outcome": outcome_of(ref), "got_outcome": outcome_of(rec)}
-            what = ("%s for %s at -O%s: %s in state [%s, history %s] but %s in the reference state [%s]; first diverging stage: %s"
-                    % (rec["prog"], rec["target"], rec["level"], describe(rec), cfg_str(cfg), word, describe(ref), cfg_str(REF), stage))
+                       "unit": list(key3), "stage": stage, "history": word,
+                       "tail": [list(o) for o in rec["seq"][max(0, rec["j"] - 2):rec["j"] + 1]]}
+            what = "%s for %s at -O%s, state [%s, history %s]" % (rec["prog"], rec["target"], rec["level"], cfg_str(cfg), word)
             ctx.violation(key, what, witness, order=order)
 
     pool = concurrent.futures.ThreadPoolExecutor(max_workers=max(1, core.NPROC))
     try:
-        futs = [(tag, c, si, d, pool.submit(launch, c, d, repo)) for tag, c, si, d in tasks]
-        for tag, c, si, d, fut in futs:
+        futs = [(tag, c, d, pool.submit(launch, c, d, repo)) for tag, c, d in tasks]
+        for tag, c, d, fut in futs:
             recs = fut.result()
             transitions += len(recs)
+            dk = json.dumps(d, sort_keys=True)
             if tag == "refA":
-                refA[si] = [strip(r) for r in recs]
-                check_records(c, si, d, recs)
+                refA[dk] = [strip(r) for r in recs]
+                check_records(c, d, recs)
             elif tag == "refB":
                 mine = [strip(r) for r in recs]
-                if mine != refA[si]:
-                    diff = [(a, b) for a, b in zip(refA[si], mine) if a != b][:1]
+                if mine != refA[dk]:
+                    diff = [(a, b) for a, b in zip(refA[dk], mine) if a != b][:1]
                     raise core.HarnessError("reference configuration is not reproducible (shard %s/%s): %r" % (d["t"], d["progs"][:2], diff))
                 ctx.count("reference_ops_rerun_identical", len(recs))
             else:
-                check_records(c, si, d, recs)
+                check_records(c, d, recs)
+        refA.clear()
+        # every reported divergence is re-run before it is believed (a configuration must reproduce itself);
+        # the re-run also shrinks the witness to the shortest history that still diverges and fetches the texts
+        keys = sorted(ctx.violations)
+        futs = [(k, pool.submit(settle, ctx.violations[k][2], repo)) for k in keys]
+        for k, fut in futs:
+            ok, detail, witness, nops = fut.result()
+            transitions += nops
+            if not ok:
+                raise core.HarnessError("divergence %s did not reproduce on re-run (%s): a configuration process is not deterministic" % (k, detail))
+            order, what, _ = ctx.violations[k]
+            ctx.violations[k] = (order, detail, witness)
     finally:
         pool.shutdown(wait=True, cancel_futures=True)
-    refA.clear()
-
-    # every reported divergence is re-run (both processes) before it is believed; the re-run also yields the texts
-    for key in sorted(ctx.violations):
-        order, what, witness = ctx.violations[key]
-        violated, detail, nops = confirm(witness, repo, expect=witness["got_outcome"])
-        transitions += nops
-        if not violated:
-            raise core.HarnessError("divergence %s did not reproduce on re-run (%s): configuration process is not deterministic" % (key, detail))
-        ctx.violations[key] = (order, what + " :: " + detail, witness)
 
     ctx.states = states
     ctx.transitions = transitions
     ctx.traces = traces
     ctx.note("configurations", [cfg_str(c) for c in cfgs])
-    ctx.note("targets", sorted({t for d in shs for t in (d["t"], d["x"])}))
+    ctx.note("targets", sorted({t for d in ref_shards for t in (d["t"], d["x"]) if t}))
     ctx.note("units", len({k[0] for k in reftab}))
     ctx.note("unit_target_level_triples", len(reftab))
-    ctx.note("processes", len(tasks))
-    ctx.note("unsupported_unit_target_pairs", len(unsupported))
+    ctx.note("configuration_processes", len(tasks))
+    ctx.note("unsupported_unit_target_level_triples", len(unsupported))
     ctx.note("unsupported_examples", sorted(unsupported)[:12])
-    if len({k for k in reftab}) - len(unsupported) < 20:
+    if len(reftab) - len(unsupported) < 20:
         raise core.HarnessError("fewer than 20 units compiled: vacuous")
+
+
+def raw_side(cfg, ops):
+    return {"cfg": list(cfg), "shard": {"raw": {"forks": [], "script": [list(o) for o in ops]}}, "op": ["s", 0, len(ops) - 1]}
+
+
+def settle(witness, repo):
+    """Confirm a divergence by re-running it; prefer the shortest history that still diverges.
+    -> (confirmed, one-line description, witness to store, operations executed)"""
+    nops = 0
+    unit = witness["unit"]
+    gcfg = tuple(witness["got"]["cfg"])
+    tail = witness["tail"]
+    cands = [tail[-1:], tail[-2:], tail] if (gcfg != REF) else [tail[-2:], tail]
+    seen = []
+    for ops in cands:
+        if ops in seen or not ops:
+            continue
+        seen.append(ops)
+        w = dict(witness)
+        w["ref"] = raw_side(REF, [unit])
+        w["got"] = raw_side(gcfg, ops)
+        v, detail, n, got = confirm(w, repo)
+        nops += n
+        if v:
+            # the diverging side once more: it must reproduce itself
+            again = launch(gcfg, w["got"]["shard"], repo)
+            nops += len(again)
+            if outcome_of(again[-1]) != outcome_of(got):
+                return False, "state %s gave %s then %s" % (cfg_str(gcfg), describe(got), describe(again[-1])), witness, nops
+            return True, headline(w) + detail, w, nops
+    v, detail, n, got = confirm(witness, repo)
+    nops += n
+    return v, headline(witness) + detail, witness, nops
+
+
+def headline(w):
+    unit = w["unit"]
+    g = w["got"]
+    if "raw" in g["shard"]:
+        hist = " after " + ", ".join("%s@%s/O%s" % tuple(o) for o in g["shard"]["raw"]["script"][:-1]) if len(g["shard"]["raw"]["script"]) > 1 else " as first compilation of the process"
+    else:
+        hist = " at operation %s of shard %s+%s (history %s)" % (g["op"], g["shard"].get("t"), g["shard"].get("x"), w.get("history"))
+    return "cc(%s, %s, opt_level=%s) in [%s]%s differs from the fresh compilation in [%s]: " % (
+        unit[0], unit[1], unit[2], cfg_str(tuple(g["cfg"])), hist, cfg_str(REF))
 
 
 def describe(rec):
@@ -361,11 +436,12 @@ def first_text_diff(ta, tb):
     return "length %d vs %d lines" % (len(la), len(lb))
 
 
-def confirm(witness, repo, expect=None):
-    """Re-run the two processes of a witness with the text side channel; -> (violated, detail, ops executed)."""
+def confirm(witness, repo):
+    """Run the two processes of a witness with the text side channel.
+    -> (violated, detail, operations executed, record of the diverging side)"""
     from vf.core import scratch
     out = {}
-    with scratch(ID) as d:
+    with scratch("%s.t%d" % (ID, threading.get_ident())) as d:
         for side in ("ref", "got"):
             w = witness[side]
             tf = os.path.join(d, side + ".jsonl")
@@ -380,25 +456,21 @@ def confirm(witness, repo, expect=None):
     ref, got = out["ref"][0], out["got"][0]
     nops = out["ref"][2] + out["got"][2]
     if ref is None or got is None:
-        return False, "operation not found in re-run", nops
-    if expect is not None and outcome_of(got) != expect:
-        return False, "re-run gave %s, first run %s" % (describe(got), expect), nops
+        return False, "operation not found in re-run", nops, got
     stage = compare(ref, got)
     if stage is None:
-        return False, "re-run agrees with the reference: %s" % describe(got), nops
-    detail = "re-run reproduces it (%s vs reference %s)" % (describe(got), describe(ref))
+        return False, "both give %s" % describe(got), nops, got
+    detail = "%s vs %s; first diverging stage %s" % (describe(got), describe(ref), stage)
     ta, tb = out["ref"][1], out["got"][1]
     if ta and tb:
         for x, y in zip(ta, tb):
             if x[2] != y[2]:
-                detail += "; %s%s %s" % (x[0], " of " + x[1] if x[1] else "", first_text_diff(x[2], y[2]))
+                detail += "%s, %s" % (" of " + x[1] if x[1] else "", first_text_diff(x[2], y[2]))
                 break
-    return True, detail, nops
+    return True, detail, nops, got
 
 
 def replay(w):
     from vf import core
-    violated, detail, _ = confirm(w, core.REPO)
-    unit = w["unit"]
-    head = "%s for %s at -O%s, [%s] vs reference [%s]: " % (unit[0], unit[1], unit[2], cfg_str(tuple(w["got"]["cfg"])), cfg_str(REF))
-    return violated, head + detail
+    violated, detail, _, _ = confirm(w, core.REPO)
+    return violated, headline(w) + detail
